@@ -229,10 +229,14 @@ func runBatch(ctx context.Context, node Node, shared *SharedStore) (Action, erro
 }
 
 func runBatchSequential(ctx context.Context, node Node, items []Result, results []Result, errorHandling string) {
+	// processed is the number of leading slots that have been filled
+	processed := len(items)
+
 	for i, item := range items {
 		if ctx.Err() != nil {
 			results[i] = NewErrorResult(fmt.Errorf("context cancelled"))
 			if errorHandling == "stop" {
+				processed = i + 1
 				break
 			}
 			continue
@@ -242,6 +246,7 @@ func runBatchSequential(ctx context.Context, node Node, items []Result, results 
 		if err != nil {
 			results[i] = NewErrorResult(err)
 			if errorHandling == "stop" {
+				processed = i + 1
 				break
 			}
 		} else {
@@ -251,6 +256,11 @@ func runBatchSequential(ctx context.Context, node Node, items []Result, results 
 				results[i] = NewResult(execResult)
 			}
 		}
+	}
+
+	// Items that were never processed must not look like successful (zero) results
+	for i := processed; i < len(items); i++ {
+		results[i] = NewErrorResult(fmt.Errorf("batch stopped due to error"))
 	}
 }
 
